@@ -39,12 +39,15 @@ def _parse_command_line(cli_args = None):
   return p, args
 
 def _create_override_tuple(key, has_value = True):
-  # TODO: Error handling for malformed options
-  section,key = key.split(":", 1)
+  option = key
+  value = None
   if has_value:
+    if not "=" in option:
+      raise ConfigurationException("malformed option '{}' should have the form SECTION_NAME:KEY=VALUE".format(option))
     key, value = key.split("=", 1)
-  else:
-    value = None
+  if not ":" in key:
+    raise ConfigurationException("malformed option '{}' should start with SECTION_NAME:KEY".format(option))
+  section,key = key.split(":", 1)
   retval = ConfigParserOverrideTuple(section = section, key = key, value = value)
   return retval
 
